@@ -319,6 +319,7 @@ pub fn shard(ctx: &Ctx) -> Shard {
         let slow_sync = n % 3 == 2;
         if slow_sync {
             cfg.max_dirty = Some(*rng.pick(&[0u64, 64, 1000]));
+            l.cfg = cfg.clone();
         }
         let sync_delay = rng.range(2, 9);
         let dir2 = dir.clone();
